@@ -263,3 +263,24 @@ Theorem genbank_bytes_reader_multi_record_refuted :
   ok_gbx gbx_w1 = true /\ gb_bytes_parser false (gbx_write [gbx_w1; gbx_w1]) = GErr 1
   /\ gb_lines_parser (py_splitlines (gbx_write [gbx_w1; gbx_w1])) = GRecs (gbx_expected [gbx_w1; gbx_w1]).
 Proof. exact gb_bytes_pinned_multi_refuted. Qed.
+
+(** ------------------------------------------------------------------------------------------------
+    File name -> (format, compression) ([get_format_suffixes], over pathlib's name / suffix / suffixes).
+    For EVERY stem made of one or more components separated by periods ([join_dot st], components non-empty, without
+    '.' and '/'): uncompressed names give the last suffix as format; names ending in gz / bz2 / zip give the
+    second-to-last suffix as format and the last as compression; suffixes are reported lower-case.
+    Example [gfs_ex]: "ENSG00000012048.23.fasta.gz" -> (fasta, gz). *)
+Theorem format_suffixes_uncompressed : forall st f, st <> [] -> ok_comps (st ++ [f]) ->
+  mem_str (ascii_lower f) compression_suffixes = false ->
+  get_format_suffixes (join_dot (st ++ [f])) = (Some (ascii_lower f), None).
+Proof. exact gfs_plain. Qed.
+
+Theorem format_suffixes_compressed : forall st f cmp, st <> [] -> ok_comps (st ++ [f; cmp]) ->
+  mem_str (ascii_lower cmp) compression_suffixes = true ->
+  get_format_suffixes (join_dot (st ++ [f; cmp])) = (Some (ascii_lower f), Some (ascii_lower cmp)).
+Proof. exact gfs_compressed. Qed.
+
+Theorem format_suffixes_only_compression : forall c0 cmp, ok_comps [c0; cmp] ->
+  mem_str (ascii_lower cmp) compression_suffixes = true ->
+  get_format_suffixes (join_dot [c0; cmp]) = (None, Some (ascii_lower cmp)).
+Proof. exact gfs_only_compression. Qed.
